@@ -7,7 +7,7 @@
 ** Parameters: kind=array|list|tuple   prop=C04|C05|C09|C10|C12
 **             maxlen=N (length bound; operations that would exceed it are not enabled)
 **             nvals=N  (element values 0..N-1, default 3)
-**             elem=int|probe|picky (probe: element type with constructor/destructor ledger;
+**             elem=int|probe|picky|str (probe: element type with constructor/destructor ledger;
 **                               picky: the same, but its assign REFUSES one poison value with
 **                               ValueError before it touches the target - failing pushes/sets
 **                               of the poison must leave contents, len and ledger unchanged;
@@ -123,6 +123,16 @@ static int propC05, propC10, propC11, propC12;
    reached without one. */
 static int viewassign = 3;     /* assign from an iterable that has no len/get (a Filter view): bit 1 Array (handled by the pinned
                                   library), bit 2 Tuple (appended instead of replacing until fix b438e9d) */
+static int strel;               /* elem=str: String elements (own a heap buffer; assign releases/reuses the old one) */
+/* Hidden state of an Array that neither len/get nor (nitems,nslots) show: spare slots that were OCCUPIED
+   before and still hold the bytes of a removed element (a destructed one after pop/resize-down, a bitwise
+   copy of the current last element after pop_at/rem).  The bytes themselves cannot be read deterministically
+   (a grown store is uninitialised), so the model tracks the fact: vac_hw = high-water mark of nitems within
+   the current store, capped by nslots; vacated = vac_hw - nitems; vac_kind = what the last removal left.
+   Part of the canonical state for element types that own resources (Probe, Picky, String), so that a state
+   reached WITH vacated slots is not merged with the same contents reached through a growing history. */
+static int vac_hw; static char vac_kind = '-';
+static int lastrem_pos;          /* model position of the element the last removal took out */
 static int light;
 static int lastidx = -1;
 static int lastpos = -1;       /* where the element touched by that access is NOW (-1: gone / unknown): differs from lastidx once
@@ -160,7 +170,7 @@ void  __wrap_free(void* p) { if (p) vf_blocks--; __real_free(p); }
 
 static char labelbuf[200];
 static const char* LK(int kind, const char* oracle) {
-  snprintf(labelbuf, sizeof labelbuf, "%s/%s/%s/%s", KN[kind], (probe && kind != K_TUPLE) ? (picky ? "picky" : "probe") : "int", lastop, oracle);
+  snprintf(labelbuf, sizeof labelbuf, "%s/%s/%s/%s", KN[kind], (probe && kind != K_TUPLE) ? (picky ? "picky" : "probe") : (strel && kind != K_TUPLE) ? "str" : "int", lastop, oracle);
   return labelbuf;
 }
 static const char* L(const char* oracle) { return LK(kindA, oracle); }
@@ -217,6 +227,7 @@ static volatile bool g_b; static volatile int g_int;
 
 static int64_t elemval(var e) {
   if (type_of(e) is Ref) e = deref(e);
+  if (type_of(e) is String) return atoi(c_str(e));      /* elem=str: the values are the strings "0".."3" */
   return c_int(e);
 }
 
@@ -505,7 +516,10 @@ static size_t canon_one(var x, struct seq* m, char* buf, size_t cap) {
   if (!m->exists) return snprintf(buf, cap, "-");
   o += snprintf(buf + o, cap - o, "%c", KN[m->kind][0]);
 #if WB
-  if (m->kind == K_ARRAY) { struct Array* a = x; o += snprintf(buf + o, cap - o, "n%zu/s%zu", a->nitems, a->nslots); }
+  if (m->kind == K_ARRAY) {
+    struct Array* a = x; o += snprintf(buf + o, cap - o, "n%zu/s%zu", a->nitems, a->nslots);
+    if (m == &MA && ET isnt Int) { int vac = vac_hw - (int)a->nitems; o += snprintf(buf + o, cap - o, "/vacated%d%c", vac > 0 ? vac : 0, vac > 0 ? vac_kind : '-'); }
+  }
 #endif
   int64_t t[MAXN + 8];
   int n = snap(x, t, MAXN + 8);
@@ -540,6 +554,7 @@ static void reset(void) {
   CA = mk(kindA); MA.exists = 1; MA.kind = kindA; MA.managed = 0;
   CB = NULL; MB.kind = kindB;
   lastidx = -1; lastpos = -1; lastkind = '-';
+  vac_hw = 0; vac_kind = '-';
   setop("init");
 }
 
@@ -622,7 +637,7 @@ static void srcname(int s, char* buf, size_t cap) {
 
 static void make_alphabet(void) {
   char sn[24];
-  int nk = probe ? 2 : 3;          /* source kinds: a Tuple cannot own Probe elements */
+  int nk = (probe || strel) ? 2 : 3;          /* source kinds: a Tuple cannot own Probe elements (and holds Int objects, which a String element refuses) */
   for (int v = 0; v < nvals; v++) addop(T_PUSH, v, 0, 0, "push(%d)", v);
   addop(T_POP, 0, 0, 0, "pop");
   for (int v = 0; v < nvals; v++) addop(T_APPEND, v, 0, 0, "append(%d)", v);
@@ -733,7 +748,7 @@ static void m_ins(struct seq* m, int pos, int v) {
 static void m_del(struct seq* m, int pos) {
   for (int i = pos; i + 1 < m->n; i++) m->v[i] = m->v[i + 1];
   m->n--;
-  if (m == &MA) { if (lastpos == pos) lastpos = -1; else if (lastpos > pos) lastpos--; }
+  if (m == &MA) { lastrem_pos = pos; if (lastpos == pos) lastpos = -1; else if (lastpos > pos) lastpos--; }
 }
 static int  m_find(struct seq* m, int v) { for (int i = 0; i < m->n; i++) if (m->v[i] == v) return i; return -1; }
 
@@ -1004,7 +1019,26 @@ static void duptuple_child(void* arg) {
   _exit(0);
 }
 
+static int apply_op(int op);
 static int apply(int op) {
+  int n0 = MA.n, t = ops[op].t;
+  int r = apply_op(op);
+#if WB
+  if (r == VF_OK && CA && MA.kind == K_ARRAY) {
+    struct Array* a = CA;
+    if (MA.n < n0) {      /* a removal: what is left in the slot behind the last item? */
+      int shifted = (t == T_POPAT || t == T_REM || t == T_AL_REM) && lastrem_pos < MA.n;
+      vac_kind = shifted ? 'c' : 'd';
+    }
+    if ((int)a->nitems > vac_hw) vac_hw = (int)a->nitems;
+    if ((int)a->nslots < vac_hw) vac_hw = (int)a->nslots;
+    if (t == T_COPY || t == T_ASSIGN || t == T_ASSIGN_OTHER || t == T_ASSIGN_VIEW || t == T_A_ASSIGN_FROM_B || t == T_SWAP) vac_hw = (int)a->nitems;   /* a new store */
+  }
+#endif
+  return r;
+}
+
+static int apply_op(int op) {
   struct opd* o = &ops[op];
   int n = MA.n;
   var e; var el;
@@ -1109,7 +1143,7 @@ static int apply(int op) {
     if (m > n + 2) return VF_SKIP;
     if (m > maxlen && kindA != K_ARRAY) return VF_SKIP;
     /* List zero-extends with elements that were never constructed: outside the ledger's model */
-    if (probe && kindA == K_LIST && m > n) return VF_SKIP;
+    if ((probe || strel) && kindA == K_LIST && m > n) return VF_SKIP;
     if (kindA == K_TUPLE || m > n) return apply_resize_unspecified(m);
     setop(m == 0 ? "resize/0" : m == n ? "resize/len" : "resize/truncate");
     e = VF_CATCH(resize(CA, (size_t)m));
@@ -1966,6 +2000,7 @@ int main(int argc, char** argv) {
   two = (int)vf_param_i("two", 0);
   same = (int)vf_param_i("same", 0);
   picky = vf_param_is("elem", "picky", "int");
+  strel = vf_param_is("elem", "str", "int");
   probe = picky || vf_param_is("elem", "probe", propC05 ? "probe" : "int");
   alias = (int)vf_param_i("alias", 15);   /* all aliasing calls: the three defects they exposed are repaired in /repo (4a13eaf, 67f5339, 88e396b) */
   poisonconcat = (int)vf_param_i("poisonconcat", 0);
@@ -1974,11 +2009,11 @@ int main(int argc, char** argv) {
   if (two && (kindA == K_TUPLE) != (kindB == K_TUPLE)) { fprintf(stderr, "h_seq: two=1 pairs array/list with array/list, or tuple with tuple (a Tuple assigned from an Array references the Array's storage)\n"); _exit(2); }
   if (same && kindA != K_TUPLE) same = 0;
   vf_led_reset();
-  ET = picky ? Picky : probe ? Probe : Int;
+  ET = picky ? Picky : probe ? Probe : strel ? String : Int;
   poisonobj = new_raw(Int, $I(PICKY_POISON));
   valobj_int0 = new_raw(Int, $I(0));
 
-  for (int v = 0; v <= nvals; v++) valobj[v] = new_raw(ET, $I(v));
+  for (int v = 0; v <= nvals; v++) { char d[4]; snprintf(d, sizeof d, "%d", v); valobj[v] = strel ? (var)new_raw(String, $S(d)) : (var)new_raw(ET, $I(v)); }
   if (probe && kindA == K_TUPLE) for (int v = 0; v <= nvals; v++) valobj[v] = new_raw(Int, $I(v));
   wrongobj = new_raw(String, $S("zz"));
   for (int v = 0; v < 3; v++) { ot_int[v] = new_raw(Int, $I(v)); ot_probe[v] = new_raw(Probe, $I(v)); }
@@ -2002,7 +2037,7 @@ int main(int argc, char** argv) {
   }
 
   make_alphabet();
-  snprintf(dname, sizeof dname, "seq[%s%s,%s,len<=%d,%dvals%s%s%s,%s]", KN[kindA], WB ? "" : "(black-box)", picky ? "picky" : probe ? "probe" : "int", maxlen, nvals,
+  snprintf(dname, sizeof dname, "seq[%s%s,%s,len<=%d,%dvals%s%s%s,%s]", KN[kindA], WB ? "" : "(black-box)", picky ? "picky" : probe ? "probe" : strel ? "str" : "int", maxlen, nvals,
            two ? ",B=" : "", two ? KN[kindB] : "", same ? ",same-object" : light ? ",light-oracle" : "", prop);
   struct vf_domain d = { dname, nops, reset, cleanup, apply, check, canon, opname, nontrivial,
                          (size_t)vf_param_i("depth", 0), (size_t)vf_param_i("max_states", 0) };
